@@ -279,7 +279,16 @@ fn exercise_decoded(dm: &DecodedMap, depth: usize, out: &mut Vec<(String, String
             decode_slice(&bytes).map(|_| ()).map_err(|e| format!("decode_slice(to_writer(map)) = Err({e}); serialised: {}", String::from_utf8_lossy(&bytes[..bytes.len().min(600)])))
         }) {
             Err(p) => out.push((format!("panic/serialise/{}", panic_class(&p)), format!("to_writer / re-decode: {p}"))),
-            Ok(Err(e)) => out.push(("serialised-form-does-not-decode".into(), e)),
+            Ok(Err(e)) => {
+                let cause = if e.contains("recursion limit") {
+                    "recursion-limit"
+                } else if e.contains("expected DebugId") {
+                    "debug-id"
+                } else {
+                    "other"
+                };
+                out.push((format!("serialised-form-does-not-decode/{cause}"), e))
+            }
             Ok(Ok(())) => {}
         }
     }
@@ -305,7 +314,13 @@ fn exercise(bytes: &[u8]) -> (Vec<(String, String)>, u64, bool) {
     let used = allocated() - a0;
     let budget = 16 * 1024 * 1024 + 1024 * bytes.len() as u64;
     if used > budget {
-        out.push(("allocation/decode".into(), format!("decode_slice allocated {used} bytes for a {}-byte input (budget {budget})", bytes.len())));
+        // attribute the excess to |sourceRoot| x |sources| when that product explains it
+        let product = serde_json::from_slice::<Value>(bytes)
+            .ok()
+            .map(|v| v["sourceRoot"].as_str().map_or(0, str::len) as u64 * v["sources"].as_array().map_or(0, Vec::len) as u64)
+            .unwrap_or(0);
+        let cause = if product * 4 >= used { "source-root-times-sources" } else { "other" };
+        out.push((format!("allocation/decode/{cause}"), format!("decode_slice allocated {used} bytes for a {}-byte input (budget {budget}; |sourceRoot| x |sources| = {product})", bytes.len())));
     }
     let mut class = 0u64;
     let mut decoded = false;
@@ -549,8 +564,20 @@ fn deviations(kind: &str) -> Vec<Dev> {
         d.push(Dev::Set("/x_facebook_offsets".into(), json!([0, null, 4294967295u64])));
         d.push(Dev::Set("/x_metro_module_paths".into(), json!(["a", "b"])));
     }
-    for n in [1usize, 5, 126, 127, 128, 129, 1000] {
+    for n in [1usize, 5, 39, 40, 41, 42, 43, 126, 127, 128, 129, 1000] {
         d.push(Dev::Nest(n));
+    }
+    // debug ids in every form the debugid parser accepts (uuid, uuid + appendix, breakpad, PDB 2.0 timestamp + age)
+    for key in ["debug_id", "debugId"] {
+        for v in ["012345670", "01234567-0", "0123456700000000", "+12345670", "01234567-a", "0123456789abcdef0123456789abcdefa", "0123456789ABCDEF0123456789ABCDEF", "01234567-89ab-cdef-0123-456789abcdef-ffffffff", "00000000-0000-0000-0000-000000000000", "not-a-debug-id", ""] {
+            d.push(Dev::Set(format!("/{key}"), json!(v)));
+        }
+    }
+    // a long sourceRoot together with many sources (every source is joined with the root)
+    if kind != "index" {
+        d.push(Dev::Set("/sourceRoot".into(), json!("r".repeat(20_000))));
+        d.push(Dev::Set("/sources".into(), Value::Array(vec![Value::Null; 4_000])));
+        d.push(Dev::Set("/sources".into(), Value::Array((0..4_000).map(|i| json!(format!("s{i}"))).collect())));
     }
     if kind == "hermes" {
         for v in [json!(null), json!([]), json!([null]), json!([[]]), json!([[null]]), json!([[{"names": [], "mappings": "AAA"}]]), json!([[{"names": ["f"], "mappings": "ACA"}]]), json!([[{"names": ["f"], "mappings": "A!"}]]),
